@@ -14,6 +14,10 @@ from .canon import Abs
 from .gen import rng_for
 
 
+class EarlyStop(BaseException):
+    """Raised by Session.violation in VERIF_STOP_ON_FIRST=1 mode only."""
+
+
 class Session:
     def __init__(self, prop, tier='quick', seed=0, wi=0, nw=1):
         self.prop = prop
@@ -238,6 +242,9 @@ class Session:
             slot = self.violations[key] = {'property': dev.prop, 'signature': sig, 'count': 0,
                                            'detail': dev.detail, 'witness': w}
         slot['count'] += 1
+        if os.environ.get('VERIF_STOP_ON_FIRST') == '1':
+            # mutation-analysis mode (tools/mutation_sweep.py): one violation decides, stop this worker
+            raise EarlyStop()
 
     def custom_violation(self, kind, detail, witness, msg_kind=None, status=None):
         d = spec.Dev(self.prop, kind, detail)
